@@ -272,4 +272,56 @@ theorem C12_case_letters_neg :
   have := h ['{', '\\'] _ .l rfl
   revert this; decide
 
+/-- case change is idempotent when every special character is closed -/
+theorem C12_case_idem_partial (s r : Str) (m : CaseMode) (hs : specialsClosed s = true)
+    (h : changeCase s m = some r) : changeCase r m = some r := by
+  have hlow := C12_case_letters s r m hs h
+  obtain ⟨toks, ht, rfl⟩ := Option.map_eq_some_iff.1 h
+  rw [changeCaseAux_eq] at hlow ⊢
+  -- the result scans into tokens of the same shape
+  obtain ⟨toks', h1, h2⟩ := scanM_skel _ _ _ ht _ hlow
+  have hsp : endsInSpecial false 0 s = false := by simpa [specialsClosed] using hs
+  have htxt := scanM_text _ _ _ h1
+  simp only [ScanMode.acc, ScanMode.sp, ScanMode.depth, List.nil_append,
+    endsInSpecial_of_lower_eq s _ false 0 hlow, hsp, closeIf, List.append_nil] at htxt
+  have heq : toks' = caseToks m .start toks := shape_eq h2 (caseToks_shape m toks .start) htxt
+  subst heq
+  simp only [changeCase, scan, h1, Option.map_some, changeCaseAux_eq, caseToks_idem]
+
+theorem C12_case_idem_partial_nonvacuous :
+    specialsClosed "aB{\\'E x}{c D}e: Fg".toList = true ∧
+      changeCase "aB{\\'E x}{c D}e: Fg".toList .t = some "ab{\\'E x}{c D}e: Fg".toList ∧
+      changeCase "ab{\\'E x}{c D}e: Fg".toList .t = some "ab{\\'E x}{c D}e: Fg".toList := by decide
+
+/-- the hypothesis is needed: with a further open brace inside an unclosed special character
+every application appends another `}` -/
+theorem C12_case_idem_neg :
+    ¬ ∀ (s r : Str) (m : CaseMode), changeCase s m = some r → changeCase r m = some r := by
+  intro h
+  have := h ['{', '\\', '{'] _ .l rfl
+  revert this; decide
+
+/-- Inside braces case change changes nothing except the non-command words of a special
+character: the result is the concatenation of converted tokens with the same levels, where a
+token at level ≥ 1 that is not a special character (level 1, starting with a backslash) is
+unchanged, and in a special character the words (split at spaces) that start with a backslash
+are unchanged while the other words keep their letters up to case. -/
+theorem C12_case_braces (s r : Str) (m : CaseMode) (toks : List Tok) (hs : scan s = some toks)
+    (h : changeCase s m = some r) :
+    ∃ toks' : List Tok, r = (toks'.map Prod.fst).flatten ∧
+      List.Forall₂ (fun t t' : Tok =>
+        t'.2 = t.2 ∧
+        (1 ≤ t.2 → ¬ (t.2 = 1 ∧ startsWithBackslash t.1 = true) → t'.1 = t.1) ∧
+        (t.2 = 1 → startsWithBackslash t.1 = true →
+          ∃ ws', t'.1 = joinWith [' '] ws' ∧
+            List.Forall₂ (fun w w' => (startsWithBackslash w = true → w' = w) ∧ lower w' = lower w)
+              (splitSpace t.1) ws')) toks toks' := by
+  simp only [changeCase, hs, Option.map_some, Option.some.injEq] at h
+  subst h
+  exact ⟨caseToks m .start toks, changeCaseAux_eq m toks .start, caseToks_rel m toks .start⟩
+
+theorem C12_case_braces_nonvacuous :
+    changeCase "a{\\'e X \\AA}{c d}{{\\o}}".toList .u = some "A{\\'e X \\AA}{c d}{{\\o}}".toList := by
+  decide
+
 end Pybtex.Props
